@@ -156,6 +156,8 @@ Definition op_size (o : op) : N :=
    bitmap may then grow up to max_pieces_unknown bits (838,861 bytes), the cap imposed
    by the handler itself, which is also what a maximal Bitfield frame may claim. *)
 Definition alloc_bound (s : pstate) (o : op) : N :=
+  (* a handler may copy the peer's current bitmap (when it is retracted: TorPeerBitmap carries a copy) *)
+  3 * blen (peer_bm s) +
   match o, s_geo s with
   | OpMsg (Have _) _, None => max_pieces_unknown / 8 + 65536
   | _, _ => 24 * op_size o + 65536
